@@ -12,11 +12,13 @@
 //         a / A             filter(PartialFactors{}) / filter(Factors{})  (= getAllIds) -> id list
 //         F <f list>        FasterTrie::filter(Factors)     -> id list (order unspecified)
 //         R <pf> <remove>   FasterTrie::reconstruct         -> entries (id pf)*, factors, orders_, ids of every bucket
+//         cc / ca / mv / ma / sw <k> / gt   copies (see copyOp); all kinds
 // <pf> = <keys list> <values list>; lists are count-prefixed.
 #include "vio.hpp"
 #include <random>
 #include <tuple>
 #include <algorithm>
+#include <memory>
 #include <AIToolbox/Factored/Types.hpp>
 #include <AIToolbox/Factored/Utils/Core.hpp>
 #include <AIToolbox/Utils/IndexMap.hpp>
@@ -33,12 +35,31 @@ using namespace AIToolbox::Factored;
 static Factors readFactors(vio::Cursor & c) { auto v = c.nextSizes(); return Factors(v.begin(), v.end()); }
 static PartialFactors readPf(vio::Cursor & c) { auto k = readFactors(c); auto v = readFactors(c); return PartialFactors{k, v}; }
 
+// Copy operations, shared by all kinds.  Several objects live side by side; the new one becomes current:
+//   cc  copy-construct from the current object        ca  copy-assign the current object into a fresh one
+//   mv  move-construct from a temporary copy          ma  move-assign a temporary copy into a fresh one
+//   sw <k>  continue on object k
+template <typename T, typename Make>
+static bool copyOp(const std::string & op, vio::Cursor & c, std::vector<std::unique_ptr<T>> & objs, size_t & cur, Make make) {
+    if (op == "cc") { objs.push_back(std::make_unique<T>(*objs[cur])); }
+    else if (op == "ca") { auto n = make(); *n = *objs[cur]; objs.push_back(std::move(n)); }
+    else if (op == "mv") { T tmp(*objs[cur]); objs.push_back(std::make_unique<T>(std::move(tmp))); }
+    else if (op == "ma") { T tmp(*objs[cur]); auto n = make(); *n = std::move(tmp); objs.push_back(std::move(n)); }
+    else if (op == "sw") { cur = c.nextSize(); if (cur >= objs.size()) throw std::logic_error("sw: no such object"); return true; }
+    else return false;
+    cur = objs.size() - 1;
+    return true;
+}
+
 static void runTrie(vio::Cursor & c, vio::Out & o) {
     Factors F = readFactors(c);
     c.expect("ops");
-    Trie t(F);
+    std::vector<std::unique_ptr<Trie>> objs; size_t cur = 0;
+    objs.push_back(std::make_unique<Trie>(F));
     while (!c.atEnd()) {
         const std::string op = c.next();
+        if (copyOp(op, c, objs, cur, [&]{ return std::make_unique<Trie>(F); })) continue;
+        Trie & t = *objs[cur];
         if (op == "i") { auto pf = readPf(c); o << t.insert(pf); }
         else if (op == "e") { t.erase(c.nextSize()); }
         else if (op == "E" || op == "X") { size_t id = c.nextSize(); auto pf = readPf(c); t.erase(id, pf); }
@@ -63,12 +84,18 @@ template <typename TrieType>
 static void runFilterMap(vio::Cursor & c, vio::Out & o) {
     Factors F = readFactors(c);
     c.expect("ops");
-    FilterMap<size_t, TrieType> m(F);
-    const FilterMap<size_t, TrieType> & cm = m;
-    size_t next = 0;
+    using FM = FilterMap<size_t, TrieType>;
+    std::vector<std::unique_ptr<FM>> objs; size_t cur = 0;
+    objs.push_back(std::make_unique<FM>(F));
     while (!c.atEnd()) {
         const std::string op = c.next();
-        if (op == "i") { auto pf = readPf(c); m.emplace(pf, 1000 + next); ++next; }
+        if (copyOp(op, c, objs, cur, [&]{ return std::make_unique<FM>(F); })) continue;
+        if (op == "gt") {   // a FilterMap built from the current one's trie and container
+            objs.push_back(std::make_unique<FM>(objs[cur]->getTrie(), objs[cur]->getContainer())); cur = objs.size() - 1; continue;
+        }
+        FM & m = *objs[cur];
+        const FM & cm = m;
+        if (op == "i") { auto pf = readPf(c); m.emplace(pf, 1000 + m.size()); }
         else if (op == "F") { Factors f = readFactors(c); o.list(items(m.filter(f))); o.list(items(cm.filter(f))); }
         else if (op == "f") {
             Factors f = readFactors(c); size_t off = c.nextSize();
@@ -96,9 +123,12 @@ static void runFilterMap(vio::Cursor & c, vio::Out & o) {
 static void runFaster(vio::Cursor & c, vio::Out & o) {
     Factors F = readFactors(c);
     c.expect("ops");
-    FasterTrie t(F);
+    std::vector<std::unique_ptr<FasterTrie>> objs; size_t cur = 0;
+    objs.push_back(std::make_unique<FasterTrie>(F));
     while (!c.atEnd()) {
         const std::string op = c.next();
+        if (copyOp(op, c, objs, cur, [&]{ return std::make_unique<FasterTrie>(F); })) continue;
+        FasterTrie & t = *objs[cur];
         if (op == "i") { auto pf = readPf(c); o << t.insert(pf); }
         else if (op == "E" || op == "X") { size_t id = c.nextSize(); auto pf = readPf(c); t.erase(id, pf); }
         else if (op == "F") { Factors f = readFactors(c); o.list(t.filter(f)); }
